@@ -418,6 +418,7 @@ def search(factory_mod, factory_name, params, opts, pool=None, max_depth=None,
         else:
             outs = map(expand, frontier)
         nxt = []
+        cand = {}
         for o in outs:
             if time.time() > deadline:
                 res["capped"] = "wall-clock budget (level not completed)"
@@ -428,8 +429,14 @@ def search(factory_mod, factory_name, params, opts, pool=None, max_depth=None,
             res["violations"].extend(o["violations"])
             for key, (hist, info) in o["new"].items():
                 if key not in seen:
-                    seen[key] = hist
-                    nxt.append((hist, info))
+                    # deterministic representative: the smallest history reaching the state in
+                    # this level (workers finish in arbitrary order)
+                    cur = cand.get(key)
+                    if cur is None or json.dumps(hist) < json.dumps(cur[0]):
+                        cand[key] = (hist, info)
+        for key, (hist, info) in cand.items():
+            seen[key] = hist
+            nxt.append((hist, info))
         depth += 1
         frontier = sorted(nxt, key=lambda x: json.dumps(x[0]))
         if res["violations"]:
